@@ -725,7 +725,7 @@ def first_diff(a, b):
 
 class C03(Prop):
     id = "C03"
-    props_file = ["Props/C03.v", "Props/C03_Examples.v"]
+    props_file = ["Props/C03.v", "Props/C03_Examples.v", "Props/C03_Bridge.v"]
     coq_imports = kc.COQ_IMPORTS
     n_quick = 600
     n_thorough = 5000
@@ -738,7 +738,9 @@ class C03(Prop):
                        "processed, failing and never-triggered events and non-events; step(n); run()); non-trivial = the "
                        "uninterrupted run processes >= 6 events, >= 3 of them at one instant, and some split plan really stops "
                        "in the middle; distinct by hash of the bundle")
-    trusted_base = ["kernel harness props/kernel_common.py (real generators on the real Environment; env.schedule/env.step wrapped as "
+    trusted_base = ["vlib/translate.py (Python ast, fail closed; tables in props/kernel_tie.py) regenerates before every build the translation of "
+                    "StopSimulation.callback and Environment.step of the tree under test (coq/Gen/Extracted_kernel.v); the C03_gen_* theorems (Props/C03_Bridge.v) bridge them to stop_cb / step of Kernel/Model.v",
+                    "kernel harness props/kernel_common.py (real generators on the real Environment; env.schedule/env.step wrapped as "
                     "instance attributes; events named by creation index) plus this plugin's item log",
                     "times are exact: dyadic delays and horizons, Python numbers converted with fractions.Fraction; float rounding is "
                     "outside the theorems",
@@ -774,6 +776,13 @@ class C03(Prop):
                "the split-transparency theorems compare with the free run (step() repeated, whatever the steps answer), which is "
                "what a resumed run() is; runs in which a step answers the model's explicit internal-error result RBroken are excluded "
                "(DESIGN section 4: RFuel/RBroken), one-sidedly: only the uninterrupted run is required not to answer it"]
+
+
+    # ---- second tie: kernel leaves translated from the tree under test before the Coq build (fail closed) ----
+    def pre_build(self):
+        from vlib import framework as fw
+        from props import kernel_tie
+        kernel_tie.write_extracted_kernel(fw.REPO, fw.COQ)
 
     def gen_case(self, rng, tier):
         r = rng.random()
